@@ -54,10 +54,24 @@ func (g *c18Gate) ServeDNS(ctx context.Context, rw ResponseWriter, req *dns.Msg)
 	return rw.WriteMsg(ctx, req, resp)
 }
 
+// c18CtxCons builds request contexts that expire, like dnssvc's constructor.
+type c18CtxCons struct{ timeout time.Duration }
+
+func (c c18CtxCons) New() (context.Context, context.CancelFunc) {
+	return context.WithTimeout(context.Background(), c.timeout)
+}
+
 func c18PipeBurst(t *testing.T, out *vhOut, rng *rand.Rand, useTLS bool, k, n int) {
+	c18PipeBurstCtx(t, out, rng, useTLS, k, n, 0)
+}
+
+// c18PipeBurstCtx: with ctxTimeout > 0 the request contexts expire after it and the
+// handlers (which ignore the context, as a slow upstream exchange may) are
+// released only after the deadline has passed and more queries have arrived.
+func c18PipeBurstCtx(t *testing.T, out *vhOut, rng *rand.Rand, useTLS bool, k, n int, ctxTimeout time.Duration) {
 	g := &c18Gate{out: out, release: map[int]chan struct{}{}, entered: make(chan int, 1024)}
 	conf := ConfigDNS{
-		ConfigBase:         ConfigBase{Name: "pipe", Addr: "127.0.0.1:0", Handler: g, Network: NetworkTCP},
+		ConfigBase:         ConfigBase{Name: "pipe", Addr: "127.0.0.1:0", Handler: g, Network: NetworkTCP, RequestContext: c18ReqCtx(ctxTimeout)},
 		MaxPipelineEnabled: true,
 		MaxPipelineCount:   uint(k),
 		ReadTimeout:        5 * time.Second,
@@ -133,7 +147,12 @@ func c18PipeBurst(t *testing.T, out *vhOut, rng *rand.Rand, useTLS bool, k, n in
 	inside := []int{}
 	released := 0
 	for released < n {
-		timeout := time.After(150 * time.Millisecond)
+		wait := 150 * time.Millisecond
+		if ctxTimeout > 0 {
+			// hold the handlers past the deadline of their request contexts
+			wait = ctxTimeout + 250*time.Millisecond
+		}
+		timeout := time.After(wait)
 	collect:
 		for {
 			select {
@@ -145,6 +164,9 @@ func c18PipeBurst(t *testing.T, out *vhOut, rng *rand.Rand, useTLS bool, k, n in
 			}
 		}
 		if len(inside) == 0 {
+			if ctxTimeout > 0 {
+				break // the rest of the burst was dropped with the connection
+			}
 			t.Fatalf("k=%d n=%d: no handler running but %d queries unreleased", k, n, n-released)
 		}
 		i := rng.Intn(len(inside))
@@ -155,6 +177,9 @@ func c18PipeBurst(t *testing.T, out *vhOut, rng *rand.Rand, useTLS bool, k, n in
 		g.mu.Unlock()
 		close(ch)
 		released++
+	}
+	if ctxTimeout > 0 {
+		_ = conn.SetReadDeadline(time.Now().Add(300 * time.Millisecond))
 	}
 	<-rdone
 	dup, ok := 0, 0
@@ -167,8 +192,17 @@ func c18PipeBurst(t *testing.T, out *vhOut, rng *rand.Rand, useTLS bool, k, n in
 		}
 	}
 	g.mu.Lock()
-	out.Emit(map[string]any{"ev": "End", "answered": ok, "dup": dup, "maxActive": g.maxActive})
+	// with expiring request contexts a query that waits for a slot longer than its deadline is
+	// dropped with its connection: then only the bound is judged, not that all were answered
+	out.Emit(map[string]any{"ev": "End", "answered": ok, "dup": dup, "maxActive": g.maxActive, "strict": ctxTimeout == 0})
 	g.mu.Unlock()
+}
+
+func c18ReqCtx(d time.Duration) ContextConstructor {
+	if d == 0 {
+		return nil
+	}
+	return c18CtxCons{timeout: d}
 }
 
 func TestVerifC18Pipeline(t *testing.T) {
@@ -187,5 +221,7 @@ func TestVerifC18Pipeline(t *testing.T) {
 				c18PipeBurst(t, out, rng, useTLS, k, n)
 			}
 		}
+		// expiring request contexts: the limit holds for as long as the handlers run
+		c18PipeBurstCtx(t, out, rng, useTLS, 2, 5, 150*time.Millisecond)
 	}
 }
